@@ -136,7 +136,7 @@ def rule_serializer(program, ctx, proven):
         "util.event_as_json: the f-string frame template is read as a JSON skeleton; each hole is classified by position (between quotes / "
         "value position) and by the class of its expression; string position needs encode_basestring/json_dumps or an admission-proven hex "
         "field, value position needs a JSON encoder or an admission-proven int; str() of an arbitrary tag item is not an encoder",
-        floor=6,
+        floor=3,
     )
     fn = program.func("nostr_relay.util:event_as_json")
     params = [a.arg for a in fn.args.args]
@@ -194,7 +194,7 @@ def rule_frames(program, ctx):
         "C04.frames",
         "every ws_send(x) in web.py: x is json_dumps(<list display headed by one of EVENT/EOSE/OK/NOTICE/AUTH>), the result of "
         "event_as_json(sub_id, event), or a template whose holes are JSON-adequate; ws_send is never given str()/repr()/%-formatted text",
-        floor=6,
+        floor=3,
     )
     web = program.module("nostr_relay.web")
     for fn in [f for f in ast.walk(web.tree) if isinstance(f, (ast.FunctionDef, ast.AsyncFunctionDef))]:
@@ -260,7 +260,7 @@ def rule_sqlcodec(program, ctx):
         "SQL codec tables: column list of the SELECT skeleton in build_query == column order of the events table in get_metadata() (both "
         "dialect branches) and of the alembic migration == order assumed by event_from_tuple's row[i]; INSERT .values() covers exactly "
         "these columns, each value is event.<same field> directly or through bytes.fromhex/.id_bytes; read side applies .hex() exactly to the BLOB columns",
-        floor=5,
+        floor=2,
     )
     bq = program.func("nostr_relay.storage.db:Subscription.build_query")
     sel = None
@@ -320,11 +320,15 @@ def rule_sqlcodec(program, ctx):
                     ctx.ok(rid, c, "alembic events table column order == SELECT list")
                 else:
                     ctx.bad(finding_at(P, rid, c, f"alembic events table column order {cols} differs from the SELECT list {sel}"))
-    # INSERT
+    rule_insert_values(program, ctx, P, rid)
+
+
+def rule_insert_values(program, ctx, prop, rid):
+    """INSERT .values(): each column is the admitted event's own field through a reversible codec (shared with C03.stored)."""
     ae = program.func("nostr_relay.storage.db:DBStorage.add_event")
     vals = next((c for c in ast.walk(ae) if isinstance(c, ast.Call) and call_name(c).endswith("event_insert_query.values")), None)
     if vals is None:
-        ctx.bad(finding_func(P, rid, ae, "INSERT values() call not found", text="def add_event(...) :: values"))
+        ctx.bad(finding_func(prop, rid, ae, "INSERT values() call not found", text="def add_event(...) :: values"))
         return
     ev = "event"
     got = {}
@@ -340,9 +344,9 @@ def rule_sqlcodec(program, ctx):
         if src in allowed:
             ctx.ok(rid, k.value, f"INSERT {k.arg} = {src}")
         else:
-            ctx.bad(finding_at(P, rid, k.value, f"column `{k.arg}` is stored as `{src}`: not the event's own field through a reversible codec - what is served later differs from what was accepted and signed", text=k.arg))
+            ctx.bad(finding_at(prop, rid, k.value, f"column `{k.arg}` is stored as `{src}`: not the event's own field through a reversible codec - what is served later differs from what was accepted and signed", text=k.arg))
     if set(got) != set(EVENT_COLS):
-        ctx.bad(finding_at(P, rid, vals, f"INSERT covers {sorted(got)}; the events table has {sorted(EVENT_COLS)}", text="columns"))
+        ctx.bad(finding_at(prop, rid, vals, f"INSERT covers {sorted(got)}; the events table has {sorted(EVENT_COLS)}", text="columns"))
 
 
 def rule_kvcodec(program, ctx):
@@ -350,7 +354,7 @@ def rule_kvcodec(program, ctx):
         "C04.kvcodec",
         "LMDB codec tables: position of each field in encode_event's row tuple == FIELDS_TO_COLUMNS[field] == index read by decode_event and "
         "by matcher's Event(...); bytes.fromhex/.id_bytes on write iff .hex() on read",
-        floor=14,
+        floor=5,
     )
     kv = program.module("nostr_relay.storage.kv")
     table = {}
@@ -422,7 +426,7 @@ def rule_http(program, ctx):
         "C04.http",
         "ViewEventResource.on_get publishes `event.to_json_object()` through resp.media (JSON encoder), never through resp.text with holes; "
         "to_json_object lists the seven fields from self",
-        floor=2,
+        floor=1,
     )
     fn = program.func("nostr_relay.web:ViewEventResource.on_get")
     for s in walk_no_nested(fn):
